@@ -267,6 +267,23 @@ func c16Specs(thorough bool, fn func(s ttSpec)) {
 								hdr := ttCell{Row: 0, Col: start, Span: span, Width: sw, Align: al, Margin: mg}
 								for sh := 0; sh < 16; sh++ {
 									shrink := []bool{sh&1 != 0, sh&2 != 0, sh&4 != 0, sh&8 != 0}
+									// body cells whose own margin is wider than the
+									// header's, in the header's first or second column
+									for _, barCol := range []int{-1, start, start + 1} {
+										if barCol >= 0 && (sh%4 != 0 || mg != "d") {
+											continue
+										}
+										b2 := append([]ttCell{}, base...)
+										for i := range b2 {
+											if b2[i].Row == 1 && b2[i].Col == barCol && b2[i].Width > 0 {
+												b2[i].Margin = " │ "
+											}
+										}
+										cells := append([]ttCell{hdr}, b2...)
+										if barCol >= 0 {
+											fn(ttSpec{Cells: cells, Shrink: shrink})
+										}
+									}
 									cells := append([]ttCell{hdr}, base...)
 									// a right-edge marker like benchtab's: empty value, margin " │"
 									if start+span < 4 && (sw == 9 || thorough) {
